@@ -719,6 +719,20 @@ pub fn gen_cases(s: &Schema, seed: u64, thorough: bool) -> Vec<Case> {
                 }
             }
         }
+        // ties and the casts' boundaries reach every numeric attribute in every run
+        let always = [0.5f64, -0.5, 1.5, -1.5, 2.5, -2.5, 1000.5, -1000.5, 2147483647.5, -2147483648.5, 4294967295.5, -3e9, 3e9];
+        for (k, _) in numeric.iter() {
+            for x in always.iter() {
+                cs.push(case("real-tie", v, Some(vec![(k.to_string(), P::Real(*x))]), None, None));
+            }
+        }
+        let uint32: Vec<&(String, String)> = sch.iter().filter(|(_, t)| t == "TU32").collect();
+        for (k, _) in uint32.iter() {
+            for z in ints.iter() {
+                cs.push(case("uint-class", v, Some(vec![(k.to_string(), P::Int(*z))]), None, None));
+            }
+            cs.push(case("real-for-uint", v, Some(vec![(k.to_string(), P::Real(400.0))]), None, None));
+        }
         for (fi, (k, _)) in int32.iter().enumerate() {
             for (vi, z) in ints.iter().enumerate() {
                 if thorough || (vi + fi) % 4 == 0 || k == "versionMinor" || k == "weightValue" {
